@@ -220,6 +220,8 @@ def _run(ctx):
                 e = numpy.asfortranarray(numpy.concatenate([e, e[::-1]], axis=0))[::2]
             elif n % 8 == 7:
                 e.setflags(write=False)
+            elif n % 8 == 5:
+                e = e[0].copy()          # a single strain triple, as the signature (Tuple[float, float, float]) advertises
             o2 = Shear(e, key)
             try:
                 sr = numpy.asarray(o2.strain_rotated)
@@ -227,8 +229,14 @@ def _run(ctx):
             except Exception as exc:
                 ctx.violation(f"strain_rotated-raises:{exc_site(exc)}", exc_text(exc), case_id)
                 continue
-            ctx.evaluation("strain_rotated|" + {4: "integer-dtype", 6: "non-contiguous", 7: "read-only"}.get(n % 8, "float"), (tag, "s", n),
-                           sample={"key": tag, "strain": e[0], "rotated": sr[0]})
+            shape_in = numpy.shape(e)
+            single = len(shape_in) == 1
+            ctx.evaluation("strain_rotated|" + {4: "integer-dtype", 5: "single-triple", 6: "non-contiguous", 7: "read-only"}.get(n % 8, "float"), (tag, "s", n),
+                           sample={"key": tag, "strain": numpy.atleast_2d(e)[0], "rotated": numpy.atleast_2d(sr)[0]})
+            if sr.shape != shape_in:
+                ctx.violation(f"strain_rotated-shape:{tag}", f"{tag}: strain of shape {shape_in} gives rotated strains of shape {sr.shape}", case_id)
+                continue
+            e, sr = numpy.atleast_2d(e), numpy.atleast_2d(sr)
             ref = numpy.einsum("ia,ni->na", T2 ** 2, e)     # diag(T^T diag(e) T)
             err = numpy.abs(sr - ref).max()
             ctx.maxi("strain_rotated_err/tol", err / TOL)
@@ -240,10 +248,10 @@ def _run(ctx):
             # eigenvector sign/order independence: permute+flip the cached frame
             perm = rg.permutation(3)
             sgn = rg.choice([-1.0, 1.0], size=3)
-            o3 = Shear(e, key)
+            o3 = Shear(e[0] if single else e, key)
             o3._transformation_matrix = T2[:, perm] * sgn[None, :]
             o3._fictitious_strain_rotated = numpy.diag(numpy.diag(numpy.array(o2.fictitious_strain_rotated))[perm])
-            sr3 = numpy.asarray(o3.strain_rotated)
+            sr3 = numpy.atleast_2d(numpy.asarray(o3.strain_rotated))
             if numpy.abs(sr3 - sr[:, perm]).max() > TOL:
                 ctx.violation(f"strain_rotated-sign-order:{tag}", f"{tag}: rotated strains depend on eigenvector sign/order", case_id)
             C = T.random_sym_tensor(rg)
